@@ -230,6 +230,47 @@ static void part_b(bool thorough)
     R.sample("{\"bytes\":\"E282\",\"stated\":2,\"decode\":0,\"note\":\"truncated 3-byte sequence, the byte after the stated length is unreadable\"}");
 }
 
+// stated lengths of the full width of the size type: a length of 2^32 + k (or the largest value) on complete, NUL-terminated input
+// must behave like any other length that covers the sequence - the length is a size, not an unsigned int
+static void part_c()
+{
+    if (R.shard.idx != 0) { return; }
+    vx::mark("huge stated lengths");
+    uint64_t n = 0;
+    static const uint32_t CP[7] = {0x41, 0x7FF, 0xFFFF, 0x1FFFFF, 0x3FFFFFF, 0x7FFFFFFF, 0x20AC};
+    if (sizeof(a_size) > 4)
+    {
+        for (uint32_t cp : CP)
+        {
+            unsigned char buf[24];
+            memset(buf, 0, sizeof buf);
+            unsigned len = a_utf_encode(cp, buf);
+            a_u32 ref = 0;
+            unsigned rlen = a_utf_decode(buf, 6, &ref);
+            for (a_size num : {(a_size)1 << 32, ((a_size)1 << 32) + 1, ((a_size)1 << 32) + 3, ((a_size)1 << 32) + 6, (a_size)1 << 40, (a_size)1 << 63, ~(a_size)0})
+            {
+                a_u32 val = 0;
+                unsigned got = a_utf_decode(buf, num, &val), got0 = a_utf_decode(buf, num, nullptr);
+                ++n;
+                if (got != len || got != rlen || val != ref || got0 != len)
+                {
+                    R.viol("utf_decode|huge-length", "decoding a complete " + std::to_string(len) + "-byte sequence with a stated length of " + std::to_string((unsigned long long)num) + " returned length " + std::to_string(got) + " / " + std::to_string(got0) + " (a stated length of 6 gives " + std::to_string(rlen) + ")", "{\"cp\":" + std::to_string(cp) + "}");
+                }
+            }
+        }
+        // the length counter over a NUL-terminated text with a huge stated length stops at the NUL, like with the exact length
+        static const unsigned char TXT[] = {'a', 0xE2, 0x82, 0xAC, 'b', 0xC3, 0xA9, ' ', 'c', 0, 0, 0, 0, 0, 0, 0, 0};
+        a_size stop_ref = 777, want = a_utf_length(TXT, 9, &stop_ref);
+        for (a_size num : {((a_size)1 << 32) + 2, (a_size)1 << 40, ~(a_size)0})
+        {
+            a_size stop = 777, got = a_utf_length(TXT, num, &stop);
+            ++n;
+            if (got != want || stop != stop_ref) { R.viol("utf_length|huge-length", "a_utf_length with a stated length of " + std::to_string((unsigned long long)num) + " counted " + std::to_string((unsigned long long)got) + " code points over " + std::to_string((unsigned long long)stop) + " bytes; the NUL-terminated text has " + std::to_string((unsigned long long)want) + " over " + std::to_string((unsigned long long)stop_ref), "{}"); }
+        }
+    }
+    R.part("stated lengths 2^32, 2^32+k, 2^40, 2^63 and the largest size value on complete NUL-terminated input: decoder and length counter behave as with the exact length", n, n);
+}
+
 int main(int argc, char **argv)
 {
     vx::Args args(argc, argv);
@@ -241,6 +282,7 @@ int main(int argc, char **argv)
     return vx::run_contained([&] {
         part_a(thorough);
         part_b(thorough);
+        part_c();
         R.finish(true, "every listed domain enumerated completely");
     }, 120.0);
 }
